@@ -68,3 +68,6 @@ package nsx
 //vc:func (*rulesPair).equalizeGroups$1
 //vc:  assert[C04] at "ga.needed = true" @changedGroupWasFree !ga.needed
 //vc:  assert[C04] at "gb.nameOnDevice = ga.Id" @netspocGroupBoundOnce gb.nameOnDevice == ""
+
+// text handed to the device, a file or a log is never interpreted as a printf format
+//vc:constformat[C04]
